@@ -34,11 +34,13 @@ VARIABLES
     replies,    \* replies written to the client, in order
     out,        \* bytes passed through after the request (early data)
     closed,     \* the forwarder closed the local connection
+    ignored,    \* bytes that arrived after the close
     steps,
+    inp,        \* the input so far as runs <<byte, count>> (not in the VIEW)
     lbl
 
-vars == <<st, need, buf, atyp, host, port, replies, out, closed, steps, lbl>>
-view == <<st, need, buf, atyp, host, port, replies, out, closed, steps>>
+vars == <<st, need, buf, atyp, host, port, replies, out, closed, ignored, steps, inp, lbl>>
+view == <<st, need, buf, atyp, host, port, replies, out, closed, ignored, steps>>
 
 NoHost == [kind |-> "none", b |-> <<>>]
 Counted == {"version", "s4addr", "s5auth", "s5cmd", "s5addr", "s5hostlen",
@@ -48,6 +50,7 @@ NulTerm == {"s4user", "s4host"}
 Init ==
     /\ st = "version" /\ need = 2 /\ buf = <<>> /\ atyp = 0 /\ host = NoHost
     /\ port = 0 /\ replies = <<>> /\ out = <<>> /\ closed = FALSE /\ steps = 0
+    /\ ignored = 0 /\ inp = <<>>
     /\ lbl = <<"init">>
 
 \* byte values that matter in each state
@@ -56,8 +59,10 @@ Choices(s, n) ==
       [] s = "s4addr"    -> CASE n = 0 -> {27} [] n = 1 -> {88, 89}
                               [] n = 2 -> {0, 127} [] n = 5 -> {0, 1}
                               [] OTHER -> {0}
-      [] s = "s4user"    -> {0, 65, 255}
-      [] s = "s4host"    -> {0, 100, 255}
+      [] s = "s4user"    -> CASE n = 0 -> {0, 65, 255} [] n = 1 -> {0, 65}
+                              [] OTHER -> {0}
+      [] s = "s4host"    -> CASE n = 0 -> {0, 100, 255} [] n = 1 -> {0, 100}
+                              [] OTHER -> {0}
       [] s = "s5auth"    -> {0, 1, 2}
       [] s = "s5cmd"     -> CASE n = 0 -> {5, 4} [] n = 1 -> {1, 2}
                               [] n = 2 -> {0, 1} [] OTHER -> {1, 3, 4, 9}
@@ -66,8 +71,8 @@ Choices(s, n) ==
       [] s = "s5hostlen" -> {0, 1, 2, 3}
       [] s = "s5host"    -> {100, 255}
       [] s = "s5port"    -> IF n = 0 THEN {27} ELSE {88, 89}
-      [] s = "connected" -> {0, 5, 120}
-      [] OTHER           -> {0, 5}            \* closed / raised
+      [] s = "connected" -> IF n < 2 THEN {0, 5, 120} ELSE {}
+      [] OTHER           -> IF n < 2 THEN {5} ELSE {}   \* closed / raised
 
 ValidUtf8(bs) == \A i \in DOMAIN bs : bs[i] < 128
 
@@ -172,18 +177,28 @@ Set(q) ==
     /\ host' = q.host /\ port' = q.port /\ replies' = q.replies
     /\ out' = q.out /\ closed' = q.closed
 
+\* position inside the current field (after the request: bytes passed
+\* through; after close: bytes ignored so far)
+Pos == CASE st = "connected" -> Len(out)
+         [] st \in {"closed", "raised"} -> ignored
+         [] OTHER -> Len(buf)
+
 Feed(b) ==
     /\ steps < MaxIn
-    /\ b \in Choices(st, Len(buf))
+    /\ b \in Choices(st, Pos)
     /\ Set(FeedByte(P, b))
+    /\ ignored' = IF st \in {"closed", "raised"} THEN ignored + 1 ELSE ignored
     /\ steps' = steps + 1
+    /\ inp' = Append(inp, <<b, 1>>)
     /\ lbl' = <<"b", b, 1>>
 
 FeedMany(b, k) ==
     /\ steps < MaxIn
-    /\ st \in NulTerm \cup {"connected"} /\ b \in Choices(st, 0) \ {0}
+    /\ st \in NulTerm \cup {"connected"} /\ Pos <= 1 /\ b \in Choices(st, 0) \ {0}
     /\ Set(FeedRun(P, b, k))
+    /\ UNCHANGED ignored
     /\ steps' = steps + 1
+    /\ inp' = Append(inp, <<b, k>>)
     /\ lbl' = <<"b", b, k>>
 
 Next == (\E b \in 0..255 : Feed(b)) \/ (\E b \in 0..255, k \in Runs : FeedMany(b, k))
@@ -218,6 +233,10 @@ ConnectWellFormed ==
         /\ (replies[Len(replies)] = "s4ok" => Len(replies) = 1)
 NoReplyUnlessAsked == st # "connected" => Len(replies) <= 1
 OutOnlyWhenConnected == out # <<>> => st = "connected"
+
+\* case table: one line per reachable parser state (one input reaching it)
+Dump == PrintT(ToString(<<"S", inp, [st |-> st, atyp |-> atyp, host |-> host, port |-> port,
+                          replies |-> replies, out |-> out, closed |-> closed]>>))
 
 TypeOK ==
     /\ st \in Counted \cup NulTerm \cup {"connected", "closed", "raised"}
